@@ -309,13 +309,13 @@ pub fn enc_known_class(c: &EncCase) -> String {
         }
     }
     if c.req.stream() && c.size == SizeSpec::Stream && !c.resp.no_chunking && !c.resp.bodiless_status() && !c.req.head() {
-        return "F25-stream-request-chunked-header".into();
+        return "F18b-stream-request-chunked-header".into();
     }
-    if c.resp.bodiless_status() && !c.size.eofish() && !c.req.head() {
-        return "F2-bodiless-status-with-body".into();
+    if c.resp.status == 304 && !c.size.eofish() && !c.req.head() {
+        return "F2-304-with-body".into();
     }
-    if c.req.ver == 10 && c.size == SizeSpec::Stream {
-        return "F18-http10-stream".into();
+    if (c.req.ver == 10 || c.resp.no_chunking) && c.size == SizeSpec::Stream {
+        return "F18-unframed-stream".into();
     }
     if c.size == SizeSpec::Stream && !c.resp.no_chunking && chunks.iter().any(|x| x.is_empty()) {
         return "F1-empty-chunk".into();
